@@ -7,16 +7,9 @@
    lowering and simulation theorems. *)
 From Coq Require Import ZArith List Bool Lia ZifyBool.
 From PyRTL Require Import Base.PyZ Netlist.Sem Netlist.WFDefs Netlist.Sanity Gen.SanityNet
-  Pass.BasicGates Pass.Synth Pass.SynthProofs.
+  Pass.BasicGates Pass.Synth Pass.SynthProofs Pass.SynthSanityDefs.
 Import ListNotations.
 Open Scope Z_scope.
-
-(* WireVector.__init__ rejects bitwidth <= 0 *)
-Definition widths_posb (nl : netlist) : bool := forallb (fun x => 1 <=? wwidth x) (wires nl).
-
-(* no raise of the regenerated sanity_check_net fires on any net of the netlist *)
-Definition sanity_nets_okb (nl : netlist) : bool :=
-  forallb (fun n => match check (shape_of nl n) with None => true | Some _ => false end) (nets nl).
 
 Lemma first_err_none {A} (f : A -> option Z) l : first_err f l = None -> forall x, In x l -> f x = None.
 Proof.
@@ -50,11 +43,19 @@ Ltac norm :=
   cbn [op_in existsb Z.eqb Pos.eqb orb andb negb legal_ops ws_nth nth map wshape_of ws_width
        p_len p_elems p_is_none p_is_tuple p_mem_aw p_mem_dw length] in *.
 
-Theorem sanity_net_synth_ok nl n : widths_posb nl = true ->
+Ltac peel_all :=
+  repeat match goal with
+         | Hx : (if _ then _ else _) = None |- _ =>
+             progress (cbn [Z.eqb Pos.eqb op_in existsb orb andb negb] in Hx; peel Hx)
+         | Hx : None = None |- _ => clear Hx
+         end.
+
+Lemma special_case nl n : widths_posb nl = true ->
+  (nop n = OpMux \/ nop n = OpConcat \/ exists idx, nop n = OpSelect idx) ->
   check (shape_of nl n) = None ->
   net_synth_ok nl n = true /\ arity_ok (nop n) (length (nargs n)) = true.
 Proof.
-  intros Hp H. unfold check, shape_of in H.
+  intros Hp Hop H. unfold check, shape_of in H.
   assert (Hdecl : first_err (fun v_w => if negb (ws_inblock v_w) then Some 4
                                         else if negb (ws_inset v_w) then Some 5 else None)
                     (map (wshape_of nl) (nargs n)
@@ -65,13 +66,72 @@ Proof.
     cbn [wshape_of ws_inblock ws_inset] in E. apply declared_pos; [assumption|].
     destruct (declared nl a); [reflexivity|discriminate E]. }
   unfold net_synth_ok, arg.
-  destruct (nop n) eqn:Eop;
+  destruct Hop as [Eop|[Eop|[idx Eop]]]; rewrite Eop in *;
     cbn [op_code sh_op sh_args sh_dests sh_param pshape_of has_dest] in H;
-    peel H; rewrite ?map_length in *; norm.
-  (* fixed-arity ops: name the arguments, the arity guard kills the other lengths *)
-  all: try (destruct (nargs n) as [|a0 [|a1 [|a2 [|a3 rest]]]] eqn:Ea; norm; try lia;
-            pose proof (Hdecl O a0 ltac:(left; reflexivity)) as P0;
-            try (pose proof (Hdecl O a1 ltac:(right; left; reflexivity)) as P1);
-            cbn [arity_ok length Nat.eqb]; split; [|reflexivity]; lia).
-  all: idtac "REMAINING"; match goal with |- ?g => idtac g end.
-Abort.
+    peel H; peel_all; rewrite ?map_length in *.
+  - (* mux *)
+    destruct (nargs n) as [|a0 [|a1 [|a2 [|a3 rest]]]] eqn:Ea; norm; try lia.
+    cbn [arity_ok length Nat.eqb]. split; [|reflexivity]. lia.
+  - (* concat *)
+    norm. rewrite sum_widths in *. cbn [arity_ok]. split; [lia|reflexivity].
+  - (* select *)
+    destruct (nargs n) as [|a0 [|a1 rest]] eqn:Ea; norm; try lia.
+    cbn [arity_ok length Nat.eqb]. split; [|reflexivity].
+    apply andb_true_iff. split; [lia|].
+    apply forallb_forall. intros k Hk.
+    match goal with Hf : first_err _ idx = None |- _ => pose proof (first_err_none _ _ Hf k Hk) as Ek end.
+    cbn beta in Ek. peel Ek. lia.
+Qed.
+
+Theorem sanity_net_synth_ok nl n : widths_posb nl = true ->
+  check (shape_of nl n) = None ->
+  net_synth_ok nl n = true /\ arity_ok (nop n) (length (nargs n)) = true.
+Proof.
+  intros Hp H.
+  destruct (nop n) eqn:Eop0;
+    try (rewrite <- Eop0; apply special_case; [assumption|rewrite Eop0; solve [eauto]|assumption]).
+  all: rewrite <- Eop0; unfold check, shape_of in H;
+    assert (Hdecl : first_err (fun v_w => if negb (ws_inblock v_w) then Some 4
+                                          else if negb (ws_inset v_w) then Some 5 else None)
+                      (map (wshape_of nl) (nargs n)
+                       ++ (if has_dest (nop n) then [wshape_of nl (ndest n)] else [])) = None
+                    -> forall a, In a (nargs n) -> 1 <= width_of nl a)
+      by (intros O a Ha; pose proof (first_err_none _ _ O (wshape_of nl a)) as E;
+          specialize (E ltac:(apply in_or_app; left; apply in_map; assumption));
+          cbn [wshape_of ws_inblock ws_inset] in E; apply declared_pos; [assumption|];
+          destruct (declared nl a); [reflexivity|discriminate E]);
+    unfold net_synth_ok, arg; rewrite Eop0 in *;
+    cbn [op_code sh_op sh_args sh_dests sh_param pshape_of has_dest] in H;
+    peel H; rewrite ?map_length in *; norm;
+    (first [ assert (Hlen : length (nargs n) = 1%nat) by lia
+           | assert (Hlen : length (nargs n) = 2%nat) by lia
+           | assert (Hlen : length (nargs n) = 3%nat) by lia ]);
+    destruct (nargs n) as [|a0 [|a1 [|a2 [|a3 rest]]]] eqn:Ea; cbn [length] in Hlen; try discriminate Hlen;
+    norm;
+    pose proof (Hdecl O a0 ltac:(left; reflexivity)) as P0;
+    try (pose proof (Hdecl O a1 ltac:(right; left; reflexivity)) as P1);
+    cbn [arity_ok length Nat.eqb]; (split; [|reflexivity]); lia.
+Qed.
+
+(* every net of a netlist on which no raise fires *)
+Theorem sanity_implies_synth_ok nl : widths_posb nl = true -> sanity_nets_okb nl = true ->
+  synth_okb nl = true /\ (forall n, In n (nets nl) -> arity_ok (nop n) (length (nargs n)) = true).
+Proof.
+  intros Hp Hs. unfold sanity_nets_okb in Hs. rewrite forallb_forall in Hs. split.
+  - unfold synth_okb. apply forallb_forall. intros n Hn. specialize (Hs n Hn).
+    destruct (check (shape_of nl n)) eqn:E; [discriminate|]. apply (sanity_net_synth_ok nl n Hp E).
+  - intros n Hn. specialize (Hs n Hn).
+    destruct (check (shape_of nl n)) eqn:E; [discriminate|]. apply (sanity_net_synth_ok nl n Hp E).
+Qed.
+
+(* ---- the C03 theorems with PyRTL's own check as the premise ---- *)
+
+Theorem simulation_sanity_checked nl regmap memmap inss :
+  wfb nl = true -> widths_posb nl = true -> sanity_nets_okb nl = true ->
+  legal_init nl regmap -> Forall (legal_ins nl) inss ->
+  Forall2 (wires_repr nl)
+    (fst (run nl 0 (init_state nl 0 regmap memmap) inss))
+    (fst (grun nl (ginit nl regmap memmap) inss)).
+Proof.
+  intros Hwf Hp Hs. apply synth_simulation; [assumption|]. apply (sanity_implies_synth_ok nl Hp Hs).
+Qed.
